@@ -59,7 +59,7 @@ impl Prop for C12 {
         vec![("failed-store", 0.5), ("failed-after-effects", 0.15)]
     }
     fn release_fraction(&self, tier: Tier) -> f64 {
-        tier.pick(0.25, 0.5)
+        tier.pick(0.25, 0.08)
     }
     fn max_shrink_iters(&self) -> u32 {
         // a shrink step of a case with injected failures costs dozens of child processes
